@@ -166,62 +166,66 @@ def le(n, k):
     return list((n & (2 ** (8 * k) - 1)).to_bytes(k, "little"))
 
 
-def expected_writes(c, m, sandbox):
-    """(dict address -> byte that must be there, set of addresses that may change freely)"""
+def expected_writes(c, m, sandbox, order="little"):
+    """(dict address -> byte that must be there, set of addresses that may change freely).  order = "big": the configuration of a big-endian
+    host forced on this machine - every multi-byte value the host stores is then most significant byte first in the raw image."""
     exp, free = {}, set()
     if m["errno"] != 0:
         return exp, free
     k, o = c["call"], m["out"]
+    _le = le
+    le_ = (lambda n, k_: _le(n, k_)[::-1]) if order == "big" else _le
+    sc = (lambda bs: list(bs)[::-1]) if order == "big" else (lambda bs: list(bs))
 
     def put(a, bs):
         for i, b in enumerate(bs):
             exp[a + i] = b
     if k == "open":
-        put(R1, le(o["fd"], 4))
+        put(R1, le_(o["fd"], 4))
     elif k in ("write", "pwrite"):
-        put(R1, le(o["n"], 4))
+        put(R1, le_(o["n"], 4))
     elif k in ("read", "pread"):
-        put(R1, le(o["n"], 4))
+        put(R1, le_(o["n"], 4))
         stride = 0x10 if len(c.get("lens", [])) > 16 else 0x100
         for j, buf in enumerate(o["bufs"]):
             put(RBUF + stride * j, buf)
     elif k in ("seek", "tell"):
-        put(R1, o["off"])
+        put(R1, sc(o["off"]))
     elif k == "filestat":
         p1 = c.get("abi", "p") == "p"
         free = set(range(STAT, STAT + (64 if p1 else 56)))
         if not o.get("skip"):
-            put(STAT + (32 if p1 else 24), o["size"])
+            put(STAT + (32 if p1 else 24), sc(o["size"]))
         put(STAT + 16, [o["ftype"]]) if not o.get("skip") or o["ftype"] == 3 else None
     elif k == "pathstat":
         p1 = c.get("abi", "p") == "p"
         free = set(range(STAT, STAT + (64 if p1 else 56)))
         if not o.get("skip"):
-            put(STAT + (32 if p1 else 24), o["size"])
+            put(STAT + (32 if p1 else 24), sc(o["size"]))
         put(STAT + 16, [o["ftype"]])
     elif k == "readlink":
         t = o["target"].encode()
         n = min(len(t), o["buflen"])
-        put(R1, le(n, 4))
+        put(R1, le_(n, 4))
         put(RBUF, list(t[:n]))
     elif k == "fdstat":
         free = set(range(STAT + 8, STAT + 24))                 # the two rights masks
-        put(STAT, [o["ftype"], 0] + le(o["flags"], 2) + [0, 0, 0, 0])
+        put(STAT, [o["ftype"], 0] + le_(o["flags"], 2) + [0, 0, 0, 0])
     elif k == "prestat":
-        put(R1, le(0, 4) + le(len(sandbox.encode()), 4))
+        put(R1, le_(0, 4) + le_(len(sandbox.encode()), 4))
     elif k == "prestatname":
         n = min(len(sandbox.encode()), plen(c, sandbox))
         put(PATH2, list(sandbox.encode()[:n]))
     return exp, free
 
 
-def compare_call(c, m, a, sandbox):
+def compare_call(c, m, a, sandbox, order="little"):
     """None if the real call did what the model prescribes, else a short reason."""
     if a is None:
         return "no observation (the process died before this call)"
     if a.get("errno") != m["errno"]:
         return "errno: spec %d, code %s" % (m["errno"], a.get("errno"))
-    exp, free = expected_writes(c, m, sandbox)
+    exp, free = expected_writes(c, m, sandbox, order)
     ch = changed(a)
     for addr, b in exp.items():
         got = ch.get(addr, 0xEE)
